@@ -19,11 +19,11 @@ def lib_sources():
     pats = ["C/infra/*.cpp", "C/syntax/*.cpp", "C/parser/*.cpp", "C/reparser/*.cpp", "C/sema/*.cpp",
             "C/symbols/*.cpp", "C/types/*.cpp", "common/*/*.cpp", "utility/*.cpp",
             "compiler_support/gnu/*.cpp", "data-structures/*.cpp",
-            "cnippet/CommandOptions.cpp", "cnippet/CommandLineParser.cpp", "cnippet/Driver.cpp"]
+            "cnippet/*.cpp"]
     out = []
     for p in pats:
         out += sorted(glob.glob(os.path.join(REPO, p)))
-    return out
+    return [s for s in out if not s.endswith("cnippet/Main.cpp")]
 
 
 def harness_sources():
